@@ -220,6 +220,32 @@ class Mat(Obj):
         return id(self)
 
 
+def render(v, top: bool = True) -> str:
+    """Python-like text rendering of an abstract value (sets rendered in a canonical order)."""
+    if isinstance(v, (Sym, Lin, Vec)):
+        raise Unsupported("text rendering of a symbolic value")
+    if isinstance(v, str):
+        return v if top else repr(v)
+    if isinstance(v, (bool, int, float)) or v is None:
+        return str(v)
+    if isinstance(v, Fraction):
+        return str(float(v))
+    if isinstance(v, list):
+        return "[" + ", ".join(render(x, False) for x in v) + "]"
+    if isinstance(v, tuple):
+        return "(" + ", ".join(render(x, False) for x in v) + ("," if len(v) == 1 else "") + ")"
+    if isinstance(v, (set, frozenset)):
+        if not v:
+            return "set()" if isinstance(v, set) else "frozenset()"
+        inner = "{" + ", ".join(sorted(render(x, False) for x in v)) + "}"
+        return inner if isinstance(v, set) else f"frozenset({inner})"
+    if isinstance(v, dict):
+        return "{" + ", ".join(f"{render(k, False)}: {render(x, False)}" for k, x in v.items()) + "}"
+    if hasattr(v, "abs_str"):
+        return v.abs_str() if top else (v.abs_repr() if hasattr(v, "abs_repr") else v.abs_str())
+    return f"<{type(v).__name__}>"
+
+
 def _num(v):
     return isinstance(v, (int, float, Fraction)) and not isinstance(v, bool)
 
@@ -384,6 +410,8 @@ class Evaluator:
         self.strict_index = False           # negative indices into concrete lists are out-of-bounds (array semantics)
         self.attr_fallback = None           # callable(dotted) -> value | None for unknown dotted attribute reads
         self.opaque: Dict[str, ast.AST] = {}
+        self.runtime = None                 # instances.Runtime: resolves package names / classes / functions
+        self.module = None                  # loader.Module the evaluated code belongs to (for name resolution)
 
     def call_user(self, fnode: ast.FunctionDef, args: List[Any], kwargs: Optional[Dict[str, Any]] = None,
                   skip_self: bool = False):
@@ -412,6 +440,8 @@ class Evaluator:
         child.attr_fallback = self.attr_fallback
         child.opaque_ok = self.opaque_ok
         child.while_bound = self.while_bound
+        child.runtime = self.runtime
+        child.module = getattr(fnode, "_csa_module", None) or self.module
         body = list(fnode.body)
         if body and isinstance(body[0], ast.Expr) and isinstance(body[0].value, ast.Constant) \
                 and isinstance(body[0].value.value, str):
@@ -438,6 +468,10 @@ class Evaluator:
             return self.env[n.id]
         if n.id in ("True", "False", "None"):
             return {"True": True, "False": False, "None": None}[n.id]
+        if self.runtime is not None:
+            found, v = self.runtime.lookup_name(self.module, n.id)
+            if found:
+                return v
         raise Unsupported(f"unbound name {n.id}", n)
 
     def _e_Tuple(self, n):
@@ -468,6 +502,10 @@ class Evaluator:
                 it = list(it)
             if isinstance(it, (set, frozenset)):
                 it = sorted(it, key=repr)
+            if isinstance(it, Vec):
+                it = list(it.vals)
+            if hasattr(it, "abs_iter"):
+                it = list(it.abs_iter())
             if not isinstance(it, (list, tuple)):
                 raise Unsupported("comprehension over abstract iterable", g.iter)
             for v in it:
@@ -506,9 +544,9 @@ class Evaluator:
                 if v.format_spec is not None or v.conversion != -1:
                     raise Unsupported("format spec in f-string", n)
                 val = self.ev(v.value)
-                if isinstance(val, (int, str, float)):
-                    out.append(str(val))
-                else:
+                try:
+                    out.append(render(val))
+                except Unsupported:
                     out.append(f"<{type(val).__name__}>")       # text rendering of an abstract value
         return "".join(out)
 
@@ -584,6 +622,8 @@ class Evaluator:
             child = Evaluator(dict(outer.env), outer.funcs, outer.max_steps)
             child.attr_fallback = outer.attr_fallback
             child.sym_compare = outer.sym_compare
+            child.runtime = outer.runtime
+            child.module = outer.module
             child.env.update(dict(zip(names, args)))
             return child.ev(n.body)
         return fn
@@ -647,6 +687,8 @@ class Evaluator:
                 return v
         base = self.ev(n.value)
         if isinstance(base, Obj):
+            if hasattr(base, "abs_getattr"):
+                return base.abs_getattr(n.attr, self, n)
             if n.attr in base.attrs:
                 v = base.attrs[n.attr]
                 return v() if callable(v) else v
@@ -661,12 +703,16 @@ class Evaluator:
         if name is not None and name in self.funcs:
             return self.funcs[name](self, n)
         if isinstance(n.func, ast.Attribute):
+            if name is not None and name in self.funcs:
+                return self.funcs[name](self, n)
             obj = self._maybe_obj(n.func.value)
             if obj is not None:
                 if n.func.attr not in obj.methods:
+                    if hasattr(obj, "abs_callmethod"):
+                        args, kw = self._call_args(n)
+                        return obj.abs_callmethod(n.func.attr, args, kw, self, n)
                     raise Unsupported(f"method {n.func.attr} of {obj!r}", n)
-                args = [self.ev(a) for a in n.args]
-                kw = {k.arg: self.ev(k.value) for k in n.keywords}
+                args, kw = self._call_args(n)
                 return obj.methods[n.func.attr](self, n, args, kw)
         if isinstance(n.func, ast.Attribute) and ("." + n.func.attr) in self.funcs:
             return self.funcs["." + n.func.attr](self, n)
@@ -674,6 +720,34 @@ class Evaluator:
             handled, val = self._container_call(n)
             if handled:
                 return val
+        if name == "hash" and len(n.args) == 1:
+            v = self.ev(n.args[0])
+            if isinstance(v, (Sym, Lin, Vec)):
+                raise Unsupported("hash of symbolic", n)
+            return hash(v)
+        if name in ("frozenset", "any", "all", "sum", "iter") and not n.keywords and len(n.args) == 1:
+            v = self.ev(n.args[0])
+            if hasattr(v, "abs_iter"):
+                v = list(v.abs_iter())
+            if isinstance(v, Vec):
+                v = list(v.vals)
+            if isinstance(v, dict):
+                v = list(v)
+            if isinstance(v, (list, tuple, set, frozenset)):
+                if name == "frozenset":
+                    return frozenset(v)
+                if name == "iter":
+                    return list(v) if not isinstance(v, (set, frozenset)) else sorted(v, key=repr)
+                if name == "any":
+                    return any(self.truth(x, n) for x in v)
+                if name == "all":
+                    return all(self.truth(x, n) for x in v)
+                if name == "sum":
+                    tot = 0
+                    for x in v:
+                        tot = _arith(ast.Add(), tot, x, n)
+                    return tot
+            raise Unsupported(f"{name} of abstract", n)
         if name in ("len", "min", "max", "abs", "int", "float", "range", "str", "bool", "set", "list", "tuple",
                     "sorted", "enumerate", "isinstance"):
             args = [self.ev(a) for a in n.args]
@@ -710,7 +784,12 @@ class Evaluator:
             if name == "int":
                 if isinstance(args[0], (Sym, Lin, Vec)):
                     raise Unsupported("int of symbolic", n)
-                return int(args[0])
+                try:
+                    return int(args[0])
+                except ValueError:
+                    raise AbsRaise("ValueError", n)
+                except TypeError:
+                    raise AbsRaise("TypeError", n)
             if name == "float":
                 if isinstance(args[0], (Sym, Lin)):
                     return args[0]
@@ -720,11 +799,7 @@ class Evaluator:
                     raise Unsupported("range over abstract bound", n)
                 return list(range(*args))
             if name == "str":
-                if isinstance(args[0], (int, str, float)):
-                    return str(args[0])
-                if isinstance(args[0], (list, tuple)) and all(isinstance(x, (int, str, float)) for x in args[0]):
-                    return str(args[0])
-                raise Unsupported("str of abstract", n)
+                return render(args[0])
             if name == "bool":
                 return self.truth(args[0], n)
             if name == "sorted" and False:
@@ -736,13 +811,28 @@ class Evaluator:
                     args[0] = list(args[0].vals)
                 if isinstance(args[0], dict):
                     args[0] = list(args[0])
+                if hasattr(args[0], "abs_iter"):
+                    args[0] = list(args[0].abs_iter())
                 if isinstance(args[0], (list, tuple, set, frozenset)):
                     return {"list": list, "tuple": tuple, "sorted": sorted, "set": set}[name](args[0])
                 raise Unsupported(f"{name} of abstract", n)
             if name == "enumerate":
+                if hasattr(args[0], "abs_iter"):
+                    args[0] = list(args[0].abs_iter())
                 if isinstance(args[0], (list, tuple)):
                     return list(enumerate(args[0]))
                 raise Unsupported("enumerate of abstract", n)
+        if self.runtime is not None:
+            try:
+                fv = self.ev(n.func)
+            except Unsupported:
+                fv = None
+            if fv is not None and hasattr(fv, "abs_call"):
+                args, kw = self._call_args(n)
+                return fv.abs_call(args, kw, self, n)
+            if callable(fv) and getattr(fv, "__name__", "") == "fn":      # evaluator lambda
+                args, kw = self._call_args(n)
+                return fv(*args)
         raise Unsupported(f"call {name or ast.dump(n.func)[:40]}", n)
 
     # ------------------------------------------------------------------ statements
@@ -777,6 +867,17 @@ class Evaluator:
             for el, v in zip(target.elts, value):
                 self.store(el, "=", v, stmt)
             return
+        if isinstance(target, ast.Attribute):
+            try:
+                ob = self.ev(target.value)
+            except Unsupported:
+                ob = None
+            if isinstance(ob, Obj) and hasattr(ob, "abs_setattr"):
+                if op != "=":
+                    binop = {"+=": ast.Add(), "-=": ast.Sub(), "*=": ast.Mult()}[op]
+                    value = _arith(binop, ob.abs_getattr(target.attr, self, stmt), value, stmt)
+                ob.abs_setattr(target.attr, value, self, stmt)
+                return
         if isinstance(target, ast.Subscript) and not isinstance(target.slice, ast.Slice):
             try:
                 base = self.ev(target.value)
@@ -905,6 +1006,8 @@ class Evaluator:
                 it = list(it.vals)
             elif isinstance(it, Mat):
                 it = list(it.rows)
+            elif hasattr(it, "abs_iter"):
+                it = list(it.abs_iter())
             if not isinstance(it, (list, tuple)):
                 raise Unsupported("loop over abstract iterable", st)
             it = list(it)
@@ -950,7 +1053,58 @@ class Evaluator:
             raise AbsRaise(name, st)
         if isinstance(st, ast.Assert):
             return
+        if isinstance(st, ast.Try):
+            try:
+                try:
+                    self.block(st.body)
+                except AbsRaise as exc:
+                    for h in st.handlers:
+                        if self._handler_matches(h, exc.exc_name):
+                            if h.name:
+                                self.env[h.name] = Obj("EXC:" + exc.exc_name)
+                            self.block(h.body)
+                            break
+                    else:
+                        raise
+                else:
+                    self.block(st.orelse)
+            finally:
+                self.block(st.finalbody)
+            return
+        if isinstance(st, (ast.Import, ast.ImportFrom)):
+            if self.runtime is not None:
+                self.runtime.exec_import(self, st)
+                return
+            raise Unsupported("import statement", st)
+        if isinstance(st, ast.With):
+            for item in st.items:
+                v = self.ev(item.context_expr)
+                if item.optional_vars is not None:
+                    self.store(item.optional_vars, "=", v, st)
+            self.block(st.body)
+            return
         raise Unsupported(f"statement {type(st).__name__}", st)
+
+    def _call_args(self, n: ast.Call):
+        args = []
+        for a in n.args:
+            if isinstance(a, ast.Starred):
+                v = self.ev(a.value)
+                if not isinstance(v, (list, tuple)):
+                    raise Unsupported("star argument", n)
+                args.extend(v)
+            else:
+                args.append(self.ev(a))
+        kw = {}
+        for k in n.keywords:
+            if k.arg is None:
+                v = self.ev(k.value)
+                if not isinstance(v, dict):
+                    raise Unsupported("double-star argument", n)
+                kw.update(v)
+            else:
+                kw[k.arg] = self.ev(k.value)
+        return args, kw
 
     def _maybe_obj(self, node: ast.AST) -> Optional[Obj]:
         try:
@@ -993,6 +1147,31 @@ class Evaluator:
                 return Sym(target.id)
         return self.ev(value)
 
+    EXC_PARENTS = {"ModuleNotFoundError": "ImportError", "ImportError": "Exception", "KeyError": "LookupError",
+                   "IndexError": "LookupError", "LookupError": "Exception", "ValueError": "Exception",
+                   "TypeError": "Exception", "NameError": "Exception", "ZeroDivisionError": "ArithmeticError",
+                   "ArithmeticError": "Exception", "NotImplementedError": "RuntimeError", "RuntimeError": "Exception",
+                   "AttributeError": "Exception", "UnicodeDecodeError": "ValueError", "Exception": "BaseException"}
+
+    def _handler_matches(self, h: ast.ExceptHandler, exc_name: str) -> bool:
+        if h.type is None:
+            return True
+        types = h.type.elts if isinstance(h.type, ast.Tuple) else [h.type]
+        names = [(_dotted(t) or "").split(".")[-1] for t in types]
+        cur = exc_name.split(".")[-1]
+        seen = set()
+        while cur and cur not in seen:
+            if cur in names:
+                return True
+            seen.add(cur)
+            nxt = self.EXC_PARENTS.get(cur)
+            if nxt is None and self.runtime is not None:
+                nxt = self.runtime.exception_parent(cur)
+            if nxt is None:
+                nxt = "Exception" if cur != "Exception" and cur != "BaseException" else None
+            cur = nxt
+        return False
+
     def call_stmt(self, call: ast.Call, st: ast.stmt):
         """Expression statement that is a call: whitelisted function, or a recorded mutator effect."""
         name = _dotted(call.func)
@@ -1010,11 +1189,14 @@ class Evaluator:
             handled, _ = self._container_call(call)
             if handled:
                 return
+            if self.runtime is not None:
+                self._e_Call(call)
+                return
             key = self._alias_key(call.func.value)
             args = tuple(self.ev(a) for a in call.args)
             self.effects.append(Effect(key, "call:" + call.func.attr, args, st))
             return
-        raise Unsupported(f"call statement {name}", st)
+        self._e_Call(call)
 
 
 def _dotted(node: ast.AST) -> Optional[str]:
